@@ -1740,7 +1740,9 @@ class FuncFindLast(ValueFunc):
             s = obj.value
             part = args.getString("part").value
             start = args.getInt("start", len(s) - 1).value
-            return ValueInt(obj.value.rfind(part, 0, start))
+            if start < 0:
+                return ValueInt(-1)
+            return ValueInt(obj.value.rfind(part, 0, start + len(part)))
         elif obj.isList():
             env = environment
             if key:
@@ -1748,6 +1750,8 @@ class FuncFindLast(ValueFunc):
             item = args.get("part")
             lst = obj.value
             start = args.getInt("start", len(lst) - 1).value
+            if start > len(lst) - 1:
+                start = len(lst) - 1
             for idx in range(start, -1, -1):
                 elem = lst[idx]
                 if key:
